@@ -49,10 +49,27 @@ def shift(s, trk, k):
     return s
 
 
-def long_run(idx, path, vc, ac, arate, nfr, cls, base_v, base_a, vstep=None, astep=None, dv=None, da=None):
+def special(sc):
+    """PS packings of AAC audio beyond one frame per PES: several ADTS frames under one PES header / PTS ("grouped"),
+    ADTS frames with 1..4 bytes behind the header ("tiny"); "" = neither"""
+    if sc["path"] != "ps":
+        return ""
+    au = [f for f in sc["frames"] if f["trk"] == "a" and f["us"][0]["id"] < SENT]
+    grouped = any(f.get("g", 0) > 0 for f in au)
+    tiny = sc["ac"] == "aac" and any(f["us"][0]["n"] < 5 for f in au)
+    if grouped:
+        return "several_adts_frames_in_one_pes" + ("_with_1_to_4_bytes_behind_their_headers" if tiny else "")
+    if tiny:
+        return "adts_frame_with_1_to_4_bytes_behind_the_header"
+    return ""
+
+
+def long_run(idx, path, vc, ac, arate, nfr, cls, base_v, base_a, vstep=None, astep=None, dv=None, da=None, grp=1, tiny=False):
     """arithmetically generated run of nfr video (and audio) frames for the drift clause; base_v / base_a: the
     first DTS of the track on the source clock (48 bits, not reduced to the wire field); dv / da: PS with a
-    DTS field, PTS - DTS of the track"""
+    DTS field, PTS - DTS of the track; grp (PS, AAC): ADTS frames per audio PES, the first carries the PTS, the
+    others follow it in the same PES payload and stand 1024 samples each behind it (astep = the distance of two
+    frames in ticks, not less than a frame lasts); tiny: audio frames of 1..4 bytes"""
     dts = dv is not None or da is not None
     dv, da = dv or 0, da or 0
     frames, plan, ps = [], [], []
@@ -81,8 +98,10 @@ def long_run(idx, path, vc, ac, arate, nfr, cls, base_v, base_a, vstep=None, ast
                         plan.append({"f": f, "us": [i + 1], "i": 1, "m": 1})
         if path == "ps":
             key = any(u["k"] == "idr" for u in fr["us"])
-            ps.append({"f": f, "m": (2 if f % 5 < 2 else 1) if fr["trk"] == "a" else 1 + (f % 3), "c": 1 + (f % 2), "pall": f % 2 == 0,
-                       "sys": key or f == 1, "psm": key or f == 1, "join": False, "dts": dts})
+            # a PES in which a further frame commences carries the PTS of the group's first frame once
+            ps.append({"f": f, "m": (2 if f % 5 < 2 else 1) if fr["trk"] == "a" else 1 + (f % 3), "c": 1 + (f % 2),
+                       "pall": f % 2 == 0 and not (fr["trk"] == "a" and grp > 1),
+                       "sys": key or f == 1, "psm": key or f == 1, "join": False, "dts": dts, "ride": fr.get("g", 0) > 0})
 
     for j in range(nfr):
         if vc != "none":
@@ -92,21 +111,23 @@ def long_run(idx, path, vc, ac, arate, nfr, cls, base_v, base_a, vstep=None, ast
                 us = [{"k": k, "id": 0, "n": 1 + (j // 25) % 2} for k in need(vc)] + [{"k": "idr", "id": uid, "n": n}]
             else:
                 us = [{"k": "p", "id": uid, "n": n}]
-            add({"trk": "v", "ts": limbs(base_v + dv + j * vs), "d": dv, "us": us})
+            add({"trk": "v", "ts": limbs(base_v + dv + j * vs), "d": dv, "g": 0, "us": us})
         if ac != "none":
-            add({"trk": "a", "ts": limbs(base_a + da + j * as_), "d": da, "us": [{"k": "au", "id": 1 + (j % 100), "n": 9 + j // 100}]})
+            g = j % grp
+            add({"trk": "a", "ts": limbs(base_a + da + (j - g) * as_ + g * 1024 * asec // arate), "d": da, "g": g,
+                 "us": [{"k": "au", "id": 1 + (j % 100), "n": 1 + (j + j // 4) % 4 if tiny else 9 + j // 100}]})
     # sentinels 2 s and 4 s after the end of the longer track
     end = max((nfr - 1) * vs * 1000 // vsec if vc != "none" else 0, (nfr - 1) * as_ * 1000 // asec if ac != "none" else 0)
     for x in (1, 2):
         if vc != "none":
-            add({"trk": "v", "ts": limbs(base_v + dv + (end + 2000 * x) * vsec // 1000), "d": dv, "us": [{"k": "idr", "id": SENT + x, "n": 9}]})
+            add({"trk": "v", "ts": limbs(base_v + dv + (end + 2000 * x) * vsec // 1000), "d": dv, "g": 0, "us": [{"k": "idr", "id": SENT + x, "n": 9}]})
         if ac != "none":
-            add({"trk": "a", "ts": limbs(base_a + da + (end + 2000 * x) * asec // 1000), "d": da, "us": [{"k": "au", "id": SENT + 2 + x, "n": 9}]})
+            add({"trk": "a", "ts": limbs(base_a + da + (end + 2000 * x) * asec // 1000), "d": da, "g": 0, "us": [{"k": "au", "id": SENT + 2 + x, "n": 9}]})
     ch = 2 if arate >= 44100 else 1
     return {"sc": idx, "g": -idx, "path": path, "vc": vc, "ac": ac, "vrate": vrate, "arate": arate,
             "asc": [2, FI.get(arate, 4), ch] if ac == "aac" else [], "sdp": [], "fmt": "annexb" if path != "rtsp" else cls,
             "afmt": "raw", "frames": frames, "plan": plan, "ps": ps, "s0v": 65000, "s0a": 65500, "ptrk": "v", "order": [],
-            "origin": "long"}
+            "origin": "long" if grp == 1 and not tiny else "long_grouped" if grp > 1 else "long_tiny"}
 
 
 def big_frames(idx, vc, n, mode):
@@ -167,9 +188,20 @@ def diag(ev):
                     got += [("u", u["id"], u["n"], m["ok"] and u["eq"], m["ts"]) for u in m["us"] if u["id"] < SENT]
         want = []
         have = set()
+        rate = 1000 if path == "cust" else (90000 if path == "ps" or trk == "v" else ev["arate"])
+        # packing of the audio track that the signature names (PS)
+        pk = (":" + special(ev)) if trk == "a" and special(ev) else ""
+        head = None
         for fi, f in enumerate(ev["frames"]):
             if f["trk"] != trk:
                 continue
+            off = 0
+            if f.get("g", 0) > 0 and head is not None:
+                # a frame that rides in the PES of a head frame: implied source time = the head's + off
+                off = f["g"] * 1024 * rate // ev["arate"]
+                f = dict(f, ts=head["ts"], d=head.get("d", 0))
+            else:
+                head = f
             for u in f["us"]:
                 if u["k"] in ("vps", "sps", "pps"):
                     have.add(u["k"])
@@ -177,27 +209,25 @@ def diag(ev):
                         want.append(("sh",))
                         have = set()
                 elif u["k"] != "aud" and u["id"] < SENT:
-                    want.append(("u", u["id"], u["n"], f["ts"], f.get("d", 0)))
+                    want.append(("u", u["id"], u["n"], f["ts"], f.get("d", 0), off))
         gu = [g for g in got if g[0] == "u"]
         wu = [w for w in want if w[0] == "u"]
         if any(not g[-2] if g[0] == "u" else not g[1] for g in got):
-            return "SameUnits:%s:%s:bytes_differ" % (path, trk)
-        if len(gu) < len(wu) and path != "ps":
-            return "SameUnits:%s:%s:lost" % (path, trk)
+            return "SameUnits:%s:%s:bytes_differ%s" % (path, trk, pk)
+        if len(gu) < len(wu) and (path != "ps" or trk == "a"):
+            return "SameUnits:%s:%s:lost%s" % (path, trk, pk)
         if len(gu) > len(wu):
-            return "SameUnits:%s:%s:extra" % (path, trk)
+            return "SameUnits:%s:%s:extra%s" % (path, trk, pk)
         if [g[1:3] for g in gu] != [w[1:3] for w in wu][len(wu) - len(gu):]:
-            return "SameUnits:%s:%s:order" % (path, trk)
+            return "SameUnits:%s:%s:order%s" % (path, trk, pk)
         nsh_g = sum(1 for g in got if g[0] == "sh")
         nsh_w = sum(1 for w in want if w[0] == "sh") + (1 if (trk == "v" and ev["sdp"]) or (trk == "a" and codec == "aac") else 0)
         if nsh_g != nsh_w and path != "ps":
             return "SeqHeader:%s:%s:%s" % (path, trk, "missing" if nsh_g < nsh_w else "extra")
-        rate = 1000 if path == "cust" else (90000 if path == "ps" or trk == "v" else ev["arate"])
         wu = wu[len(wu) - len(gu):]
         w = WBITS[path]
-        src = [unlimb(x[3]) for x in wu]
-        dsrc = [unlimb(x[3]) - x[4] for x in wu]
-        views = [src] + ([[v % (1 << w) for v in src], [v % (1 << w) for v in dsrc]] if w else [])
+        src = [unlimb(x[3]) + x[5] for x in wu]
+        views = [src] + ([[unlimb(x[3]) % (1 << w) + x[5] for x in wu], [(unlimb(x[3]) - x[4]) % (1 << w) + x[5] for x in wu]] if w else [])
 
         def fits(vals):
             for g, v in zip(gu, vals):
@@ -218,7 +248,7 @@ def diag(ev):
                 where = "above_2^32"
             elif src[0] >> 31 != src[-1] >> 31:
                 where = "across_2^31"
-            return "TimeAffine:%s:%s:%s:%s" % (path, trk, "rate_multiple_of_1000" if rate % 1000 == 0 else "rate_not_multiple_of_1000", where)
+            return "TimeAffine:%s:%s:%s:%s%s" % (path, trk, "rate_multiple_of_1000" if rate % 1000 == 0 else "rate_not_multiple_of_1000", where, pk)
     return "Conforms:%s:other" % path
 
 
@@ -241,6 +271,10 @@ def run(ctx):
     # the streams of the timestamp-region sweep (a track elsewhere than at 10^9 / near 0) run in every tier and seed
     keys.sort(key=lambda k: 0 if (scs[k]["reg"]["v"] not in ("g1", "lo") or scs[k]["reg"]["a"] not in ("g1", "lo", "same")) else 1)
     nreg = sum(1 for k in keys if scs[k]["reg"]["v"] not in ("g1", "lo") or scs[k]["reg"]["a"] not in ("g1", "lo", "same"))
+    # so do the streams with the PS packings of AAC beyond one frame per PES (several ADTS frames in one PES, a PES
+    # without PTS that begins with a new ADTS frame, ADTS frames of 8..11 bytes)
+    keys.sort(key=lambda k: 0 if special(scs[k]) else 1)
+    npack = sum(1 for k in keys if special(scs[k]))
     want = 3600 if ctx.quick else 48000
     scen = []
     # every enumerated stream once in order or perturbed (seeded choice), then more perturbed arrivals
@@ -279,6 +313,17 @@ def run(ctx):
     scen.append(long_run(len(scen), "cust", "hevc", "pcmu", 8000, nfr, "", 4294000000 - nfr * 40, 1000, astep=20))
     scen.append(long_run(len(scen), "ps", "avc", "aac", 44100, nfr, "", 900000, 900123, astep=2090))
     scen.append(long_run(len(scen), "ps", "hevc", "pcma", 8000, nfr, "", 2000000000, 2000000500, astep=1800))
+    # PS packings of AAC: two or three ADTS frames per PES (one PTS; every second or third frame's time is the implied one:
+    # an offset of 1024 samples that is not a whole number of ms must not add up), one of the PES of a group without PTS
+    # (frames of equal size cut into two PES: the PES without PTS begins with a new ADTS frame), ADTS frames of 8..11 bytes
+    fdur = lambda r: -(-1024 * 90000 // r)       # a frame lasts this many ticks, rounded up
+    for r, g in ((44100, 2), (48000, 3), (8000, 3), (22050, 2)) + (() if ctx.quick else ((44100, 3), (11025, 2), (96000, 3), (16000, 2), (32000, 3))):
+        scen.append(long_run(len(scen), "ps", "avc" if g == 2 else "hevc", "aac", r, nfr, "", 900000, 900123, astep=fdur(r), grp=g))
+    scen.append(long_run(len(scen), "ps", "avc", "aac", 44100, nfr, "", 5000000, 5000321, astep=2090, da=900, dv=0, grp=2))
+    # 16 frames (372 ms, ISO 13818-1 2.7.4 allows 0.7 s between two PTS) per PES: an offset that is rounded frame by frame is 3 ms late at the 16th
+    scen.append(long_run(len(scen), "ps", "avc", "aac", 44100, nfr, "", 900000, 900123, astep=2090, grp=16))
+    scen.append(long_run(len(scen), "ps", "avc", "aac", 44100, nfr, "", 900000, 900123, astep=2090, tiny=True))
+    scen.append(long_run(len(scen), "ps", "hevc", "aac", 48000, nfr, "", 900000, 900123, astep=1920, grp=3, tiny=True))
     # the same clauses across the landmarks of the clocks: the RTP field wraps in the middle of the run (every clock rate,
     # one or both tracks, the tracks wrap at different instants), the PS clock passes 2^32 and wraps at 2^33 (PTS only,
     # PTS + DTS), customize ms pass 2^32 and stand at a Unix-epoch value
@@ -298,6 +343,8 @@ def run(ctx):
         scen.append(long_run(len(scen), "ps", "avc", "aac", 44100, nfx, "", lm - half * 3600 - 450, lm - (nfx // 3) * 2090 - 7, astep=2090))
         scen.append(long_run(len(scen), "ps", "hevc", "pcma", 8000, nfx, "", lm - half * 3600 - 450, lm + 90000, astep=1800, dv=3600, da=0))
         scen.append(long_run(len(scen), "ps", "avc", "pcmu", 8000, nfx, "", lm + 900000, lm - half * 1800 - 1, astep=1800, dv=0, da=900))
+        scen.append(long_run(len(scen), "ps", "hevc", "aac", 44100, nfx, "", lm - half * 3600 - 450, lm - (nfx // 3) * 2090 - 7, astep=2090,
+                             grp=2 if lm != 1 << 32 else 3, dv=0 if lm == 1 << 33 else None, da=900 if lm == 1 << 33 else None))
         scen.append(long_run(len(scen), "cust", "avc", "aac", 44100, nfx, "", lm - half * 40 - 3, lm - (nfx // 3) * 23 - 1, astep=23))
     scen.append(long_run(len(scen), "ps", "avc", "aac", 48000, nfx, "", (1 << 32) + 3000000000, (1 << 32) + 5000, astep=1920))
     scen.append(long_run(len(scen), "cust", "hevc", "opus", 48000, nfx, "", 1700000000000, 1700000000007, astep=20))
@@ -336,11 +383,16 @@ def run(ctx):
                        "(source clocks of 48 bits; every pair of regions for the video and the audio track: near 0, across 2^31, "
                        "across 2^32 = wrap of the RTP field / bit 32 of the 33-bit PS clock / end of the 32-bit RTMP range for "
                        "customize ms, above 2^32, across the 2^33 wrap of the PS clock, Unix-epoch ms; PES with PTS only and with "
-                       "PTS + DTS, audio frames in one or two PES); plus %d generated cases: timestamps shifted into the upper "
+                       "PTS + DTS, audio frames in one or two PES) and all %d streams with the PS packings of AAC beyond one frame "
+                       "per PES (two or three ADTS frames under one PES header and PTS, the group in one PES or cut into two of "
+                       "which the second has no PTS, ADTS frames with 1..4 bytes behind the header; the time of a frame without "
+                       "a PTS of its own is the implied one: its head's + k * 1024 samples); plus %d generated cases: timestamps shifted into the upper "
                        "half of the 32-bit range, %d-frame runs at every AAC clock rate / G.711 / Opus / 29.97 fps for the drift "
                        "clause, %d-frame runs across the wrap of the RTP field (every clock rate), across 2^31 / 2^32 / 2^33 of the "
                        "PS clock and of customize ms, PS frames of 64-300 KiB over several PES packets (PES_packet_length 0xFFFF), PS packs cut "
-                       "into two RTP packets at every byte offset" % (ntlc, len(keys), nreg, len(scen) - ntlc, nfr, nfx))
+                       "into two RTP packets at every byte offset; %d-frame PS runs with 2 or 3 ADTS frames per PES at 44.1 / 48 / 8 / 22.05 kHz "
+                       "(and across 2^31 / 2^32 / 2^33), with a PES without PTS that begins with a new ADTS frame, with ADTS frames of "
+                       "8..11 bytes" % (ntlc, len(keys), nreg, npack, len(scen) - ntlc, nfr, nfx, nfr))
     ctx.sample({k: v for k, v in scen[0].items() if k != "frames"})
     ctx.sample({k: (v if k not in ("frames", "plan", "ps") else len(v)) for k, v in scen[-1].items()})
     rej = E.validate(ctx, "Trace_Ingest", "Trace_Ingest.cfg", rows, shards=max(2, min(E.NCPU, 8)), tool_opts="-Xss512m")
@@ -361,6 +413,12 @@ def run(ctx):
                         "the first arrival of a track is its first packet; the wire field of a clock wraps at most once inside a run; "
                         "sources are monotonic per track (no B-frames: lal's RTSP ingest documents pts = dts; a PS DTS field runs a "
                         "constant behind the PTS of its track)",
+                        "PS audio: an ADTS frame without a PTS of its own (it follows another frame in the same PES payload, or begins "
+                        "a PES that has no PTS) has the source time ISO 13818-1 implies: the PTS names the first access unit that "
+                        "commences in the PES, the next ones follow at 1024 samples each at the sampling rate of the ADTS header "
+                        "(in 90 kHz ticks, rounded down); every group begins with a PES that has a PTS (2.7.4: a PTS at least every "
+                        "0.7 s, 2.7.5: the first access unit has one).  Audio streams WITHOUT any PTS are not modelled: they are not "
+                        "legal program streams and carry no source timestamp the output could be compared with",
                         "wrap rule: the source clock is modelled as it runs on (48 bits) and the wire carries it modulo 2^32 (RTP) / "
                         "2^33 (PES PTS, DTS) / not reduced (AvPacket int64 ms); per track the output must be the clock in ms up to one "
                         "constant modulo 2^32 (RTMP timestamps have 32 bits) in ONE of the views: the clock as it runs on (the wrap of "
